@@ -340,7 +340,16 @@ impl TextSelection {
         let begin = Cursor::BeginAligned(
             self.begin()
                 + match offset.begin {
-                    Cursor::BeginAligned(x) => x,
+                    Cursor::BeginAligned(x) => {
+                        if x > textlen {
+                            //the offset is relative to this text selection, it may not reach beyond it
+                            return Err(StamError::CursorOutOfBounds(
+                                offset.begin,
+                                "(textselection_by_offset)",
+                            ));
+                        }
+                        x
+                    }
                     Cursor::EndAligned(x) => {
                         if textlen < x.abs() as usize {
                             return Err(StamError::CursorOutOfBounds(
@@ -356,7 +365,15 @@ impl TextSelection {
         let end = Cursor::BeginAligned(
             self.begin()
                 + match offset.end {
-                    Cursor::BeginAligned(x) => x,
+                    Cursor::BeginAligned(x) => {
+                        if x > textlen {
+                            return Err(StamError::CursorOutOfBounds(
+                                offset.end,
+                                "(textselection_by_offset)",
+                            ));
+                        }
+                        x
+                    }
                     Cursor::EndAligned(x) => {
                         if textlen < x.abs() as usize {
                             return Err(StamError::CursorOutOfBounds(
